@@ -48,7 +48,7 @@ type Work struct {
 	Cut     int    `json:"cut,omitempty"`      // >0: the source text handed to the interpreter ends after this many bytes (a program that arrives truncated)
 }
 
-const nSites = 138
+const nSites = 141
 const nWraps = 7
 
 func siteSrc(k int, id string) string {
@@ -349,6 +349,24 @@ func siteSrc(k int, id string) string {
 	// the zero element of a slice of modules used as the first element of a TYPE path
 	case 136:
 		return "module my" + id + " { make(type T, 1) }\nmake(type EY" + id + ", my" + id + ")\nay" + id + " = make([]EY" + id + ", 1)\nxy" + id + " = ay" + id + "[0]\ntry { ty" + id + " = make(xy" + id + ".T) } catch { }\ntry { uy" + id + " = make(xy" + id + ".q.T) } catch { }\ntry { vy" + id + " = make([]xy" + id + ".T) } catch { }\nh(" + id + ")\nmake(xy" + id + ".T)"
+	// a variable whose address is taken (and which is read) by goroutines while the scope that holds it deletes and
+	// defines it again: scopes are safe to share, whatever taking an address does to a binding
+	case 137:
+		un := ""
+		for k := 2; k < 8; k++ {
+			un += "delete(\"av" + id + "\")\nav" + id + " = " + strconv.Itoa(k) + "\n"
+		}
+		return "av" + id + " = 1\nad" + id + " = make(chan int64, 2)\ngo func() {\nfor ai" + id + " = 0; ai" + id + " < 8; ai" + id + "++ { try { ap" + id + " = &av" + id + " } catch { } }\nad" + id + " <- 1\n}()\ngo func() {\nfor aj" + id + " = 0; aj" + id + " < 8; aj" + id + "++ { try { aq" + id + " = av" + id + " + 1 } catch { } }\nad" + id + " <- 1\n}()\n" + un + "h(" + id + ")\n<-ad" + id + "\n<-ad" + id
+	case 138:
+		// the same through a pointer that is used: written through and read back while the variable is rebound
+		un := ""
+		for k := 2; k < 6; k++ {
+			un += "bv" + id + " = \"s" + strconv.Itoa(k) + "\"\ndelete(\"bv" + id + "\")\nbv" + id + " = " + strconv.Itoa(k) + "\n"
+		}
+		return "bv" + id + " = 1\nbd" + id + " = make(chan int64, 1)\ngo func() {\nfor bi" + id + " = 0; bi" + id + " < 8; bi" + id + "++ { try { bp" + id + " = &bv" + id + "; *bp" + id + " = bi" + id + "; bq" + id + " = *bp" + id + " } catch { } }\nbd" + id + " <- 1\n}()\n" + un + "h(" + id + ")\n<-bd" + id
+	// strings that are longer in bytes than in characters, indexed and sliced with explicit and omitted bounds
+	case 139:
+		return "us" + id + " = \"" + strings.Repeat("é", 40) + "\"\nut" + id + " = \"" + strings.Repeat("日本語", 12) + "\"\nuu" + id + " = \"na\u00efve caf\u00e9, \" * 4\ntry { ua" + id + " = us" + id + "[5:] } catch { }\ntry { ub" + id + " = uu" + id + "[:10] + \"...\" + uu" + id + "[40:] } catch { }\ntry { uc" + id + " = len(ut" + id + "[1:]) } catch { }\ntry { ud" + id + " = us" + id + "[63:] } catch { }\ntry { for ue" + id + " in ut" + id + " { } } catch { }\ntry { uf" + id + " = ut" + id + "[35] } catch { }\ntry { ug" + id + " = us" + id + "[2:79] } catch { }\nh(" + id + ")\nuh" + id + " = ut" + id + "[3:]\nui" + id + " = us" + id + "[:41]"
 	default:
 		return "x" + id + " = hid(1) & hid(\"z\")\ny" + id + " = hid(1.5) | hid(nil)\nz" + id + " = hid({}) ^ 1\nw" + id + " = hid([1, 2]) + hid({\"a\": 1})\nv" + id + " = hid(nil) < hid([1])\nu" + id + " = hid(func() { }) == hid(func() { })"
 	}
